@@ -28,7 +28,10 @@ def stepOp (e : Env) (op : String) : Option (Env × String) := do
     let nums := (List.range (hi + 1 - lo)).map (· + lo)
     let secH := "H" ++ ",".intercalate (nums.map (fun n => match e.bt.getHashByNumber n with
       | .ok h => e.name h | .greaterThanHighest => "eH" | .lowerThanRoot => "eL" | .notFound => "eF" | .panic => "panic"))
-    pure (e, secH ++ " b" ++ bestStr e)
+    let leafIdx := sortNat (e.bt.leaves.filterMap (fun l => e.defs.findIdx? (fun d => d.hash = l.hash)))
+    let secP := "P" ++ ".".intercalate (leafIdx.map (fun i =>
+      s!"{i}:{primaryCount e.bt.root (e.defs[i]!.hash)}"))
+    pure (e, secH ++ " " ++ secP ++ " b" ++ bestStr e)
   else
     let i ← rest.toNat?
     if i ≥ e.defs.size then none
